@@ -443,7 +443,16 @@ func serialize(m *packet.BGPMessage, k int, safi uint8) (b []byte, err error) {
 	return nil, fmt.Errorf("unknown body")
 }
 
+// expectSize > 0: the case was steered to serialize to exactly that many bytes (boundary stream)
+var expectSize int
+
 func do(id string, k int, safi uint8, m *packet.BGPMessage) {
+	want0 := expectSize
+	expectSize = 0
+	doCase(id, k, safi, m, want0)
+}
+
+func doCase(id string, k int, safi uint8, m *packet.BGPMessage, wantSize int) {
 	toks, rerr := bgpx.Render(m)
 	if rerr != nil {
 		fmt.Println("HARNESS-ERROR case=" + id + " cannot render the structure: " + rerr.Error())
@@ -459,6 +468,11 @@ func do(id string, k int, safi uint8, m *packet.BGPMessage) {
 	var err error
 	panicked, pv := hx.Guard(func() { b, err = serialize(m, k, safi) })
 	class := riskClass(m, k)
+	if k&4 != 0 && strings.HasPrefix(class, "as-path-segment-over-255") {
+		// the path was built by bio-rd itself (route.BGPPath.Prepend / the export rewrite): it has to round-trip,
+		// a segment of more than 255 ASNs here is NOT the known finding about API-injected paths
+		class = "aspath-segment-overflow-via-prepend"
+	}
 	tr.Count("class_" + class)
 	switch {
 	case panicked:
@@ -467,11 +481,18 @@ func do(id string, k int, safi uint8, m *packet.BGPMessage) {
 		hx.Violation(id, "serialize-panic-"+class, strings.ReplaceAll(fmt.Sprint(pv), "\n", " "))
 		return
 	case err != nil:
-		tr.Case(id, class != "other", input, "Err")
+		tr.Case(id, class != "other" || wantSize > 0, input, "Err")
 		tr.Count("serializer_refused")
+		if wantSize > 0 && wantSize <= 4096 {
+			nviol++
+			hx.Violation(id, "size-boundary-refused-although-it-fits", fmt.Sprintf("an UPDATE of %d bytes was refused: %v", wantSize, err))
+		}
 		return
 	}
 	tr.Case(id, class != "other" || len(b) > 300, input, hex.EncodeToString(b))
+	if wantSize > 0 && len(b) != wantSize {
+		fmt.Printf("HARNESS-ERROR case=%s boundary stream steered to %d bytes, got %d\n", id, wantSize, len(b))
+	}
 	if len(b) > 4096 {
 		nviol++
 		hx.Violation(id, "message-over-4096-bytes-"+class, fmt.Sprintf("%d bytes", len(b)))
@@ -558,5 +579,171 @@ func main() {
 		do(fmt.Sprintf("g%d", i), k, safi, m)
 		tr.Count("stream_" + stream)
 	}
+	boundaryStream(rng)
+	prependStream(rng, cfg.Tier == "thorough")
 	tr.Close(cfg.Stats, map[string]interface{}{"spec_violations": nviol})
+}
+
+// ---------------------------------------------------------------- size boundary stream
+// Every serialized size from 4096-24 to 4096+24, for each way of filling a message (unknown attribute bytes,
+// communities, NLRI / withdrawn prefixes, MP_REACH NLRI), add-path on and off: emitted => <= 4096 and round trip
+// (the general oracle), refused => the message really does not fit (checked here via the steered size).
+
+func unknownPad(n int) *packet.PathAttribute {
+	v := make([]byte, n)
+	for i := range v {
+		v[i] = byte(i)
+	}
+	return &packet.PathAttribute{TypeCode: 99, Optional: true, Transitive: true, Value: v}
+}
+
+func appendAttr(pa, x *packet.PathAttribute) *packet.PathAttribute {
+	if pa == nil {
+		return x
+	}
+	last := pa
+	for last.Next != nil {
+		last = last.Next
+	}
+	last.Next = x
+	return pa
+}
+
+func copyAttrs(pa *packet.PathAttribute) *packet.PathAttribute {
+	var first, last *packet.PathAttribute
+	for a := pa; a != nil; a = a.Next {
+		c := a.Copy()
+		if first == nil {
+			first = c
+		} else {
+			last.Next = c
+		}
+		last = c
+	}
+	return first
+}
+
+func boundaryStream(rng *hx.RNG) {
+	type shape struct {
+		name string
+		mk   func(g *gen, pad *packet.PathAttribute) (*packet.BGPUpdate, uint8)
+	}
+	basePath := func(g *gen, ncomm int) *route.Path {
+		p := &route.Path{Type: route.BGPPathType, BGPPath: &route.BGPPath{BGPPathA: &route.BGPPathA{}}}
+		p.BGPPath.ASPath = types.NewASPath([]uint32{64512, 3320})
+		p.BGPPath.BGPPathA.NextHop = bnet.IPv4FromOctets(10, 0, 0, 1).Ptr()
+		if ncomm > 0 {
+			c := make(types.Communities, ncomm)
+			for i := range c {
+				c[i] = uint32(65536 + i)
+			}
+			p.BGPPath.Communities = &c
+		}
+		return p
+	}
+	manyNLRI := func(v6 bool, n int, id uint32) *packet.NLRI {
+		var first, last *packet.NLRI
+		for i := 0; i < n; i++ {
+			cur := &packet.NLRI{PathIdentifier: id}
+			if v6 {
+				cur.Prefix = bnet.NewPfx(bnet.IPv6(0x20010db800000000+uint64(i)<<16, 0), 48).Ptr()
+			} else {
+				cur.Prefix = bnet.NewPfx(bnet.IPv4(0x0a000000+uint32(i)<<8), 24).Ptr()
+			}
+			if first == nil {
+				first = cur
+			} else {
+				last.Next = cur
+			}
+			last = cur
+		}
+		return first
+	}
+	shapes := []shape{
+		{"unknown-attr", func(g *gen, pad *packet.PathAttribute) (*packet.BGPUpdate, uint8) {
+			pa, _ := packet.PathAttributes(basePath(g, 0), false, false)
+			return &packet.BGPUpdate{PathAttributes: appendAttr(pa, pad), NLRI: manyNLRI(false, 2, 7), SAFI: 1}, 1
+		}},
+		{"communities", func(g *gen, pad *packet.PathAttribute) (*packet.BGPUpdate, uint8) {
+			pa, _ := packet.PathAttributes(basePath(g, 850), false, false)
+			return &packet.BGPUpdate{PathAttributes: appendAttr(pa, pad), NLRI: manyNLRI(false, 1, 7), SAFI: 1}, 1
+		}},
+		{"nlri", func(g *gen, pad *packet.PathAttribute) (*packet.BGPUpdate, uint8) {
+			pa, _ := packet.PathAttributes(basePath(g, 0), false, false)
+			return &packet.BGPUpdate{PathAttributes: appendAttr(pa, pad), NLRI: manyNLRI(false, 400, 7), SAFI: 1}, 1
+		}},
+		{"withdrawn", func(g *gen, pad *packet.PathAttribute) (*packet.BGPUpdate, uint8) {
+			return &packet.BGPUpdate{PathAttributes: pad, WithdrawnRoutes: manyNLRI(false, 400, 7), SAFI: 1}, 1
+		}},
+		{"mpreach", func(g *gen, pad *packet.PathAttribute) (*packet.BGPUpdate, uint8) {
+			pa, _ := packet.PathAttributes(basePath(g, 0), false, false)
+			rest, _ := withoutNextHop(pa)
+			nh := bnet.IPv6(0x20010db800000000, 1).Ptr()
+			mp := &packet.PathAttribute{TypeCode: packet.MultiProtocolReachNLRIAttr,
+				Value: packet.MultiProtocolReachNLRI{AFI: 2, SAFI: 1, NextHop: nh, NLRI: manyNLRI(true, 300, 7)}, Next: rest}
+			return &packet.BGPUpdate{PathAttributes: appendAttr(mp, pad), SAFI: 1}, 1
+		}},
+	}
+	g := &gen{r: rng.Fork(424242)}
+	for si, sh := range shapes {
+		for k := 0; k < 4; k++ {
+			// measure with a 256-byte pad, then steer: the size is affine in the pad length above 255 bytes
+			u0, safi := sh.mk(g, unknownPad(256))
+			m0 := &packet.BGPMessage{Header: &packet.BGPHeader{Type: 2}, Body: u0}
+			b0, err := serialize(m0, k, safi)
+			if err != nil || len(b0) > 4096-24-1 {
+				fmt.Printf("HARNESS-ERROR boundary shape %s does not serialize with a small pad (%v, %d bytes)\n", sh.name, err, len(b0))
+				continue
+			}
+			for target := 4096 - 24; target <= 4096+24; target++ {
+				padLen := 256 + target - len(b0)
+				u, safi := sh.mk(g, unknownPad(padLen))
+				m := &packet.BGPMessage{Header: &packet.BGPHeader{Type: 2}, Body: u}
+				expectSize = target
+				do(fmt.Sprintf("b%d-%d-%d", si, k, target), k, safi, m)
+				tr.Count("stream_size-boundary-" + sh.name)
+			}
+		}
+	}
+}
+
+// ---------------------------------------------------------------- paths built by bio-rd's own Prepend
+// A first AS_SEQUENCE of n ASNs (as received from a peer, or built by Prepend itself), then the export rewrite
+// (Prepend(localASN, 1)) and/or a policy prepend of k ASNs, across the 255-ASN segment limit. Marker bit 4.
+
+func prependStream(rng *hx.RNG, thorough bool) {
+	r := rng.Fork(777001)
+	ns := []int{250, 251, 252, 253, 254, 255}
+	for _, n := range ns {
+		for k := 1; k <= 10; k++ {
+			for variant := 0; variant < 3; variant++ {
+				bp := &route.BGPPath{BGPPathA: &route.BGPPathA{NextHop: bnet.IPv4FromOctets(10, 0, 0, 1).Ptr()}}
+				switch variant {
+				case 0: // received path with a first segment of n ASNs
+					asns := make([]uint32, n)
+					for i := range asns {
+						asns[i] = uint32(64512 + i%100)
+					}
+					bp.ASPath = types.NewASPath(asns)
+				case 1: // built from nothing by Prepend alone
+					bp.ASPath = types.NewASPath([]uint32{})
+					bp.Prepend(64999, uint16(n))
+				case 2: // an AS_SET first, then n prepended
+					bp.ASPath = &types.ASPath{{Type: types.ASSet, ASNs: []uint32{64600, 64601}}}
+					bp.Prepend(64998, uint16(n))
+				}
+				if variant == 0 || r.Bool() {
+					bp.Prepend(64513, 1) // export rewrite towards an eBGP peer
+				}
+				bp.Prepend(64514, uint16(k)) // policy: AS path prepend
+				p := &route.Path{Type: route.BGPPathType, BGPPath: bp}
+				pa, _ := packet.PathAttributes(p, false, false)
+				u := &packet.BGPUpdate{PathAttributes: pa, NLRI: &packet.NLRI{Prefix: bnet.NewPfx(bnet.IPv4(0x0a000000), 8).Ptr()}, SAFI: 1}
+				m := &packet.BGPMessage{Header: &packet.BGPHeader{Type: 2}, Body: u}
+				kk := 4 | 2 | (n+k)%2
+				do(fmt.Sprintf("p%d-%d-%d", n, k, variant), kk, 1, m)
+				tr.Count("stream_prepend-built-paths")
+			}
+		}
+	}
 }
